@@ -1852,7 +1852,7 @@ def configurable(name_or_fn=None,
   def perform_decoration(fn_or_cls):
     return _make_configurable(fn_or_cls, name, module, allowlist, denylist)
 
-  if decoration_target:
+  if decoration_target is not None:  # (A class or callable may well be falsy.)
     return perform_decoration(decoration_target)
   return perform_decoration
 
@@ -1989,7 +1989,7 @@ def register(name_or_fn=None,
         avoid_class_mutation=True)
     return fn_or_cls
 
-  if decoration_target:
+  if decoration_target is not None:  # (A class or callable may well be falsy.)
     return perform_decoration(decoration_target)
   return perform_decoration
 
